@@ -9,4 +9,9 @@ require (
 	golang.org/x/tools v0.28.0
 )
 
+require (
+	golang.org/x/mod v0.22.0 // indirect
+	golang.org/x/sync v0.10.0 // indirect
+)
+
 replace github.com/koykov/inspector => /repo
